@@ -161,7 +161,7 @@ pub fn alphabet(l: L, n: usize) -> Vec<String> {
     // digit below/at thresholds 5 and 9, multi-digit, ordinals, linking, conjunction, ordinary, punctuation
     let v = vec![
         c.one, c.unit, c.tens, c.ordinary, ",".to_string(), c.small_ord, c.linking, ".".to_string(), c.sep, c.conj, c.unit2, c.large_ord, c.zero, c.hundred, " ".to_string(),
-        c.teen, "!".to_string(), ". ".to_string(), format!("!{}", vocab::cls(l).unit), format!("!{}", vocab::cls(l).linking), "qw'fp".to_string(), "b2".to_string(), "xyzzy,".to_string(), ".\u{a0}".to_string(), "e-xyzzy".to_string(), "?!".to_string(), " .".to_string(), " . ".to_string(),
+        c.teen, "!".to_string(), ". ".to_string(), format!("!{}", vocab::cls(l).unit), format!("!{}", vocab::cls(l).linking), "qw'fp".to_string(), "b2".to_string(), "xyzzy,".to_string(), ".\u{a0}".to_string(), "e-xyzzy".to_string(), "?!".to_string(), " .".to_string(), " . ".to_string(), "4x4".to_string(), "2nd".to_string(),
     ];
     let mut out: Vec<String> = vec![];
     for w in v {
@@ -179,7 +179,7 @@ pub fn alphabet(l: L, n: usize) -> Vec<String> {
 
 pub fn run(tier: Tier) -> i32 {
     let ctx = Ctx::new("C09", tier);
-    let (n1, k1, n2, k2) = tier.pick((27usize, 4usize, 11usize, 6usize), (27, 5, 11, 7));
+    let (n1, k1, n2, k2) = tier.pick((29usize, 4usize, 11usize, 6usize), (29, 5, 11, 7));
     let mut total = Acc::new();
     let mut alphas = vec![];
     let rmax = tier.pick(40usize, 300usize);
